@@ -615,3 +615,7 @@ PROPS["C09"]._v = PROPS["C09"]._v + [V_MAIN]         # a syntax error is reporte
 
 # C03 "the reported line never exceeds the number of lines in the file plus one": the scanner's one-step position contract
 PROPS["C03"]._k = PROPS["C03"]._k + [u for u in props_lexer.C18_UNITS if u not in PROPS["C03"]._k]
+
+
+# C18: positions attached by the evaluator - operator errors at the operator, undefined names at the name, call errors at the call expression
+PROPS["C18"]._v = PROPS["C18"]._v + [u for u in ALL_V if u.name in ("binop", "expr", "call")]
